@@ -268,6 +268,30 @@ def check_create_throw(ctx):
     ctx.expect(paths, ret=2)
 
 
+def check_double_create(ctx):
+    from specs.C19 import install_exc
+    install_exc(ctx.eng)
+    b0 = ctx.sandbox_base(32, "b0", aligned=False)
+    paths = ctx.run("k_double_create", [b0])
+    nret = 0
+    for q in paths:
+        lg = q.user.get("log") or []
+        if q.status == "abort" and "Malloc returned" in (q.info or ""):
+            continue     # the symbolic allocator result was rejected: allowed
+        if q.status != "ret":
+            ctx.fail(q, "after a refused second create_sandbox the sandbox is no longer usable / destroyable: %s %s" % (q.status, q.info))
+            continue
+        nret += 1
+        t = [e for e in lg if e[0] == 73]
+        called = any(e[0] == 0x203 for e in lg)
+        ctx.require(q, z3.BoolVal(bool(t) and conc(t[0][1]) == 1 and called),
+                    "the second create is refused and the sandbox stays created: allocation still reaches the backend and destroy succeeds")
+    if nret == 0:
+        ctx.inconclusive.append("k_double_create: no returning path")
+    ctx.expect(paths)
+    ctx.expected_ok = True
+
+
 def jobs(tier, seed):
     depth = 3 if tier == "quick" else 4
     src = '#include "C14_hist.inc"\n'
@@ -276,7 +300,8 @@ def jobs(tier, seed):
              Job("C14_recreate_cb", src, [dict(name="re-creation: callback registrations", fn=check_recreate_cb, unwind=400)], native=False, flags=fl),
              Job("C14_recreate_sym", src, [dict(name="re-creation: cached symbol addresses", fn=check_recreate_sym, unwind=400)], native=False, flags=fl)]
     from specs import C13
-    extra.append(Job("C14_create_throw", '#include "C14_exc.inc"\n', [dict(name="creation that fails by throwing", fn=check_create_throw, unwind=400)], native=False, flags=fl))
+    extra.append(Job("C14_create_throw", '#include "C14_exc.inc"\n', [dict(name="creation that fails by throwing", fn=check_create_throw, unwind=400),
+                                                                       dict(name="refused second create leaves the sandbox created", fn=check_double_create, unwind=400)], native=False, flags=fl))
     extra.append(Job("C14_noop_recreate", C13.NOOP + '#include "C13_full.inc"\n', [dict(name="noop second incarnation (callbacks)", fn=C13.check_recreate, unwind=400)], native=False))
     extra.append(Job("C14_dylib_recreate", C13.DYLIB + '#include "C13_full.inc"\n', [dict(name="dylib second incarnation (callbacks)", fn=C13.check_recreate, unwind=400)],
                      native=False, flags=fl))
